@@ -357,6 +357,45 @@ class CallMixin:
                 obj.extra["ctor_args"] = (tuple(pos), dict(kw))
         return obj
 
+    def _list_like(self, n, depth=0):
+        """n is a list value: a literal, a loop-carried list (its value on loop entry is one) or appends on those"""
+        if depth > 8:
+            return False
+        if n.op in ("List", "ListComp"):
+            return True
+        if n.op == "ListAppend":
+            return self._list_like(n.args[0], depth + 1)
+        if n.op == "LoopVar":
+            init = (n.extra or {}).get("init")
+            return init is not None and self._list_like(init, depth + 1)
+        if n.op == "Loop":
+            return self._list_like(n.args[1], depth + 1)
+        return False
+
+    def _dict_updated(self, recv, arg, site, depth=0):
+        """dict value after recv.update(arg) for a dict / a literal sequence of (constant key, value) pairs / a
+        branch-selected alternative of those; None when the argument's keys are not statically known"""
+        if arg.op == "Phi" and depth < 4:
+            a = self._dict_updated(recv, arg.args[1], site, depth + 1)
+            b = self._dict_updated(recv, arg.args[2], site, depth + 1)
+            if a is None or b is None:
+                return None
+            return self.phi(arg.args[0], a, b, site)
+        new = recv
+        if arg.op == "Dict":
+            for kd, v in self.dict_items(arg):
+                if kd[0] != "k":
+                    return None
+                new = self.dict_set(new, kd[1], v, site)
+            return new
+        if arg.op in ("List", "Tuple"):
+            for pair in arg.args:
+                if pair.op not in ("Tuple", "List") or len(pair.args) != 2 or pair.args[0].op != "Const":
+                    return None
+                new = self.dict_set(new, pair.args[0].attr, pair.args[1], site)
+            return new
+        return None
+
     # ------------------------------------------------------------ methods on values
     def method_call(self, fn: Node, pos, kw, st, fr, site) -> Node:
         """call of an attribute of a non-repo value: x.reshape(..), d.keys(), lst.append(..)"""
@@ -378,15 +417,22 @@ class CallMixin:
                     return v
                 if not any(k[0] in ("**", "n") for k in recv.attr):
                     return pos[1] if len(pos) > 1 else self.const(None)
-            if name == "update" and pos and self.res(pos[0], st).op == "Dict":
-                new = recv
-                for kd, v in self.dict_items(self.res(pos[0], st)):
-                    if kd[0] == "k":
-                        new = self.dict_set(new, kd[1], v, site)
+            upd = self._dict_updated(recv, self.res(pos[0], st), site) if name == "update" and len(pos) == 1 \
+                and not kw else None
+            if upd is not None:
+                new = upd
                 st.cur[recv_id.id] = new
                 self.effect("write", site, st, fr, node=recv_id, roots=self.roots(recv_id),
                             idx=None, value=pos[0], how="method:update", new=new)
                 return self.const(None)
+        if recv.op in ("LoopVar", "ListAppend") and name == "append" and len(pos) == 1 and not kw and \
+                self._list_like(recv):
+            # list carried around an opaque loop: keep the append as a structural node
+            new = self.mk("ListAppend", (recv, pos[0]), None, site)
+            st.cur[recv_id.id] = new
+            self.effect("write", site, st, fr, node=recv_id, roots=self.roots(recv_id),
+                        idx=None, value=pos[0], how="method:append", new=new)
+            return self.const(None)
         if recv.op == "List" and name == "append" and len(pos) == 1:
             new = self.mk("List", recv.args + (pos[0],), None, site)
             st.cur[recv_id.id] = new
@@ -488,7 +534,24 @@ class CallMixin:
                         return self.mk("Tuple", cols, None, site)
                 return self.mk("ZipStar", (inner,), None, site)
             return self.mk("Zip", P, None, site)
-        if q == "builtins.enumerate" and P:
+        if q in ("itertools.starmap", "builtins.map") and len(P) >= 2 and not kw:
+            # sequential element-wise map: one call of f per element, results kept in input order
+            f = P[0]
+            args = None
+            if q.endswith("starmap"):
+                if len(P) == 2:
+                    ev = self.iter_elem(P[1], site)
+                    if ev.op == "Tuple":
+                        args = list(ev.args)
+            else:
+                args = [self.iter_elem(p, site) for p in P[1:]]
+            if args is not None:
+                self.effect("seq-map", site, st, fr, node=P[1], func=f)
+                r = self.call(f, args, {}, st, fr, site)
+                lo = self.mk("ListOf", (self.snapshot(r, st),), None, site)
+                lo.extra = {"seq": P[1] if len(P) == 2 else self.mk("Zip", P[1:], None, site)}
+                return lo
+        if q == "builtins.enumerate" and len(P) == 1 and not kw:
             return self.mk("Enumerate", (P[0],), None, site)
         if q == "builtins.range":
             return self.mk("Range", P, None, site)
